@@ -220,7 +220,7 @@ func (p *port) run() {
 				if c.op == "recv" {
 					break
 				}
-				if p.w.cancelFlag.Load() {
+				if p.w.cancelFlag.Load() && p.w.limitDrain.Load() {
 					// a consumer that keeps draining after cancel takes at most postCancelBudget more values:
 					// a stage that never stops would otherwise keep the bubble busy forever (no quiescence)
 					p.mu.Lock()
@@ -303,6 +303,7 @@ type world struct {
 	cancelF    context.CancelFunc
 	cancelled  bool
 	cancelFlag atomic.Bool // same as cancelled, readable by actors
+	limitDrain atomic.Bool // cancel-drain end game: drains take at most postCancelBudget values after cancel
 	cancelSeq  int64       // sequence number taken just before cancel() was called
 	cancelAt   int64
 	start      time.Time
